@@ -28,12 +28,15 @@ T4 == [kfs |-> <<Kf(4, <<24>>, N_, 0)>>, de |-> 3, tm |-> Tm(2, 0, -2, FALSE)]
 T5 == [kfs |-> <<Kf(2, N_, <<50>>, 0), Kf(4, N_, <<10>>, 0)>>, de |-> 2, tm |-> Tm(8, 1, -1, FALSE)]
 T6 == [kfs |-> <<Kf(1, <<12>>, <<3>>, 0), Kf(3, <<60>>, N_, 11), Kf(4, <<30>>, <<33>>, 0)>>, de |-> 1, tm |-> Tm(8, 0, 0, FALSE)]
 T7 == [kfs |-> <<Kf(4, <<64>>, N_, 0)>>, de |-> 1, tm |-> Tm(2, 1, 2, FALSE)]
+\* three non-collinear keyframes of ONE property, reversing: the terminal value is the original 0% value
+T8 == [kfs |-> <<Kf(0, <<100>>, N_, 0), Kf(2, <<120>>, <<5>>, 0), Kf(4, <<200>>, <<90>>, 0)>>, de |-> 1, tm |-> Tm(4, 1, 0, TRUE)]
 Pool == <<
   [tls |-> <<<<T1>>, <<T2>>, <<>>, <<>>>>,          s0 |-> 1, v0 |-> <<5, 7>>],
   [tls |-> <<<<T3>>, <<T5, T4>>, <<>>, <<T1>>>>,    s0 |-> 1, v0 |-> <<5, 7>>],
   [tls |-> <<<<T2>>, <<>>, <<T6>>, <<T5>>>>,        s0 |-> 3, v0 |-> <<2, 0>>],
   [tls |-> <<<<>>, <<T7>>, <<T1, T5>>, <<>>>>,      s0 |-> 1, v0 |-> <<9, 4>>],
-  [tls |-> <<<<T6>>, <<T3>>, <<>>, <<T4>>>>,        s0 |-> 2, v0 |-> <<0, 0>>] >>
+  [tls |-> <<<<T6>>, <<T3>>, <<>>, <<T4>>>>,        s0 |-> 2, v0 |-> <<0, 0>>],
+  [tls |-> <<<<T8>>, <<>>, <<T7, T8>>, <<T2>>>>,    s0 |-> 1, v0 |-> <<3, 1>>] >>
 Cfg == Pool[K]
 
 VARIABLES cur, ticks, paused, ov, vals, tls, hist, obs, rng
